@@ -571,6 +571,25 @@ let run_prog_gen (kept : bool) dt (prog : string) (impl : string) : outcome =
 
 let run_prog = run_prog_gen false
 
+(* one program step on the model alone (the composition rules of expand included) *)
+let model_step (m : z store) (o : string) : z store =
+  cur_model := m;
+  let (opl, rep) = expand o "" in
+  let st = ref m and failed = ref false in
+  List.iteri (fun k opk ->
+      if k <= rep then begin
+        if not !failed then begin
+          let (st', rk) = (match !override_model with
+              | Some fm when k = rep -> fm !st
+              | _ -> zstep_model !st opk) in
+          st := st';
+          if k < rep && (rk = RErr || rk = RPanic) then failed := true
+        end
+      end else begin
+        let (st', _) = zstep_model !st opk in st := st'
+      end) opl;
+  !st
+
 let () =
   register2 "prog" (fun a impl -> run_prog a.(0) a.(1) impl);
   (* progk: same programs, additionally observing every caller-owned axes slice after each step *)
@@ -600,10 +619,10 @@ let () =
           (* the guard of the differing step, from the default model's state before it *)
           let m = ref (empty_store : z store) in
           for i = 0 to !k - 1 do
-            let (m', _) = zstep_model !m (parse_op ops.(i) "") in m := m'
+            m := model_step !m ops.(i)
           done;
           cur_model := !m;
-          let op = parse_op ops.(!k) "" in
+          let op = (let (opl, rep) = expand ops.(!k) "" in List.nth opl rep) in
           let f = fields ops.(!k) in
           let gn = gname (zguard !m op) in
           let gn = if gn = "other" || gn = "ok" then "L" ^ String.concat "," (List.map (layout_tag !m) (operand_ids ops.(!k))) else gn in
